@@ -25,6 +25,8 @@ enum Kind {
     AdversarialAtThreshold,
     AdversarialAboveThreshold,
     Bursts,
+    /// a tracked element closes every window (the add that triggers pruning hits a known key)
+    KnownAtWindowEnd,
 }
 
 fn gen_stream(kind: Kind, n: usize, width: usize, r: &mut FastRng) -> Vec<u64> {
@@ -73,6 +75,17 @@ fn gen_stream(kind: Kind, n: usize, width: usize, r: &mut FastRng) -> Vec<u64> {
                 }
             }
         }
+        Kind::KnownAtWindowEnd => {
+            let mut fresh = 5_000_000u64;
+            for i in 0..n {
+                if (i + 1) % width == 0 || i % width == 0 {
+                    v.push(3); // first and last position of every window
+                } else {
+                    fresh += 1;
+                    v.push(fresh);
+                }
+            }
+        }
         Kind::Bursts => {
             let mut cur = r.below(50);
             for _ in 0..n {
@@ -96,7 +109,7 @@ fn item(ctx: &Ctx, i: usize, rep: &mut Report) {
     };
     let width = lc.width();
     let eps = lc.epsilon();
-    let kind = [Kind::FewKeys, Kind::Uniform, Kind::Zipf, Kind::RoundRobin, Kind::AdversarialAtThreshold, Kind::AdversarialAboveThreshold, Kind::Bursts][(i / 3) % 7];
+    let kind = [Kind::FewKeys, Kind::Uniform, Kind::Zipf, Kind::RoundRobin, Kind::AdversarialAtThreshold, Kind::AdversarialAboveThreshold, Kind::Bursts, Kind::KnownAtWindowEnd][(i / 3) % 8];
     let long = r.chance(0.12);
     let n = if long {
         5000 + r.below(ctx.tier.pick(100_000, 1_000_000)) as usize
